@@ -17,7 +17,7 @@ LEMMAS = {}
 class Contract:
     def __init__(self, qualname, params=None, requires=None, ensures=None, raises=None, raises_any=False, modifies=(),
                  returns=None, invariants=None, receivers=None, serves=(), inline=False, assumed=False, note="",
-                 variants=None, fresh_result=False, total=False, frame_only=False, fresh_params=(), inline_at_calls=False, init_fields=None, param_names=None, result_aliases=None, witnesses=None, uses_interfaces=None):
+                 variants=None, fresh_result=False, total=False, frame_only=False, fresh_params=(), inline_at_calls=False, init_fields=None, param_names=None, result_aliases=None, witnesses=None, uses_interfaces=None, min_timeout_ms=0):
         self.qualname = qualname
         self.params = params or {}
         self.requires, self.ensures = requires, ensures
@@ -37,6 +37,7 @@ class Contract:
         self.inline_at_calls = inline_at_calls
         self.init_fields = init_fields or {}     # __init__ contracts: attributes the call creates on `self`
         self.result_aliases = result_aliases or {}   # result field -> parameter whose object it is (identity)
+        self.min_timeout_ms = min_timeout_ms          # per-obligation solver budget this contract needs (also in the quick tier)
         self.uses_interfaces = uses_interfaces or {}   # method name -> interface key, for calls on receivers of unknown class
         self.witnesses = witnesses               # () -> [native argument dicts] tried on the real code when a counter-model
                                                  # over uninterpreted parts (opaque children) cannot be rebuilt as objects
@@ -127,12 +128,13 @@ class Const(Shape):
 class Obj(Shape):
     """A pre-existing object of class `cls` (resolved from 'module:Class') with the given field shapes."""
 
-    def __init__(self, cls, fresh=False, **fields):
-        self.cls, self.fields, self.fresh = cls, fields, fresh
+    def __init__(self, cls, fresh=False, by_ref=False, **fields):
+        self.cls, self.fields, self.fresh, self.by_ref = cls, fields, fresh, by_ref
 
     def make(self, ip, name):
         cls = ip.program.resolve(self.cls) if isinstance(self.cls, str) else self.cls
         o = SObj(cls, {}, fresh=self.fresh, name=name)
+        o.by_ref = self.by_ref
         for k, sh in self.fields.items():
             o.attrs[k] = sh.make(ip, f"{name}.{k}") if isinstance(sh, Shape) else ip.wrap(sh)
         return o
